@@ -198,6 +198,7 @@ func Run(c *engine.Ctx) {
 	sizeClasses(c)
 	historyPairs(c)
 	fileHistories(c)
+	filePaths(c)
 	multiByteText(c)
 	declarationCube(c)
 	headers(c)
@@ -481,6 +482,99 @@ func historyPairs(c *engine.Ctx) {
 // that preserves times, or two writes within one clock tick: the modification time is an environment answer, owned
 // here) - rewritten in place or replaced by rename. Among the inputs are writer outputs of equal length in different
 // formats. Oracle: the file entry point reports what the stream entry point reports for the bytes now in the file.
+// filePaths: the ways a path can name the file that holds the document - directly, through a symbolic link (absolute,
+// relative, a chain of two), through a symbolic link to its directory, as a hard link, relative to the working
+// directory, with dot segments and a doubled separator, with blanks and non-ASCII characters in the name - and the
+// paths that name no document: a directory, a dangling link, nothing. SniffFile and ParseFile answer as SniffReader
+// and ParseStream do on the bytes the path leads to; where it leads nowhere they return an error.
+func filePaths(c *engine.Ctx) {
+	c.Group("file-paths")
+	ins := historyInputs()
+	kinds := []string{"direct", "symlink-absolute", "symlink-relative", "symlink-chain", "symlinked-directory", "hard-link", "relative-to-cwd", "dot-segments", "blanks-and-unicode", "directory", "dangling-symlink", "missing"}
+	c.Bound("file-paths", fmt.Sprintf("%d inputs x %d ways a path names (or fails to name) the file: %v", len(ins), len(kinds), kinds))
+	for i := range ins {
+		for _, kind := range kinds {
+			i, kind := i, kind
+			c.Case(func() any { return map[string]any{"group": "file-paths", "input": clip60(ins[i]), "path": kind} }, func(t *engine.T) *engine.Violation {
+				dir, err := os.MkdirTemp(os.Getenv("MCVERIF_SCRATCH"), "c06p-")
+				if err != nil {
+					return engine.Violate("harness", "", "%v", err)
+				}
+				defer os.RemoveAll(dir)
+				real := filepath.Join(dir, "data", "sbom.json")
+				_ = os.MkdirAll(filepath.Dir(real), 0o755)
+				if err := os.WriteFile(real, []byte(ins[i]), 0o644); err != nil {
+					return engine.Violate("harness", "", "%v", err)
+				}
+				path, leads := real, true
+				var herr error
+				switch kind {
+				case "symlink-absolute":
+					path = filepath.Join(dir, "latest.json")
+					herr = os.Symlink(real, path)
+				case "symlink-relative":
+					path = filepath.Join(dir, "latest.json")
+					herr = os.Symlink(filepath.Join("data", "sbom.json"), path)
+				case "symlink-chain":
+					mid := filepath.Join(dir, "mid.json")
+					path = filepath.Join(dir, "latest.json")
+					if herr = os.Symlink(real, mid); herr == nil {
+						herr = os.Symlink("mid.json", path)
+					}
+				case "symlinked-directory":
+					herr = os.Symlink(filepath.Join(dir, "data"), filepath.Join(dir, "current"))
+					path = filepath.Join(dir, "current", "sbom.json")
+				case "hard-link":
+					path = filepath.Join(dir, "copy.json")
+					herr = os.Link(real, path)
+				case "relative-to-cwd":
+					wd, _ := os.Getwd()
+					defer func() { _ = os.Chdir(wd) }()
+					herr = os.Chdir(dir)
+					path = filepath.Join("data", "sbom.json")
+				case "dot-segments":
+					path = dir + "/data/../data//./sbom.json"
+				case "blanks-and-unicode":
+					path = filepath.Join(dir, "data", "my sbom é✓.json")
+					herr = os.Rename(real, path)
+				case "directory":
+					path, leads = filepath.Join(dir, "data"), false
+				case "dangling-symlink":
+					path, leads = filepath.Join(dir, "latest.json"), false
+					herr = os.Symlink(filepath.Join(dir, "nothing-here"), path)
+				case "missing":
+					path, leads = filepath.Join(dir, "nothing-here.json"), false
+				}
+				if herr != nil {
+					return engine.Violate("harness", "", "preparing %s: %v", kind, herr)
+				}
+				f, err := (&formats.Sniffer{}).SniffFile(path)
+				d1, e1 := reader.New().ParseFile(path)
+				t.Transitions(2)
+				t.Validated(1)
+				if !leads {
+					if err == nil || e1 == nil || d1 != nil {
+						return engine.Violate("file-detection", "path-kind", "a path that names no document (%s): SniffFile returned (%q,%v), ParseFile (%v,%v)", kind, f, err, d1 != nil, e1)
+					}
+					t.Outcome("file-paths-error")
+					return nil
+				}
+				want := sniffKey(ins[i])
+				if got := fmt.Sprintf("%s|%v", f, err != nil); got != want {
+					return engine.Violate("file-detection", "path-kind", "SniffFile through a path of kind %s reports %q (%v), SniffReader on the bytes it leads to reports %q", kind, got, err, want)
+				}
+				d2, e2 := reader.New().ParseStream(strings.NewReader(ins[i]))
+				if (e1 == nil) != (e2 == nil) || (e1 == nil && !proto.Equal(normDoc(d1), normDoc(d2))) {
+					return engine.Violate("file-detection", "path-kind", "ParseFile through a path of kind %s differs from ParseStream on the bytes it leads to (errors: %v / %v)", kind, e1, e2)
+				}
+				t.State(fmt.Sprint("fp", i, kind))
+				t.Outcome("file-paths-ok")
+				return nil
+			})
+		}
+	}
+}
+
 func fileHistories(c *engine.Ctx) {
 	c.Group("file-history")
 	c13, _ := rw.Write(histDoc(), formats.CDX13JSON, 0)
